@@ -213,7 +213,9 @@ void h_put(void) {
         QV_ASSERT(errno == ENOMEM, "C15: put fails only on allocation failure");
         INV_tree(&s, s.n);                                          /* still a valid tree with the same keys ... */
         same_as_before(&s, P);                                      /* ... and the same values, also under k */
+#ifndef NOFAIL
         QV_REACH("put allocation failure");
+#endif
     }
     free(name); free(val);
     QV_ASSERT(!qtreetbl_putobj(t, NULL, 1, &v0, 1) && !qtreetbl_putobj(t, &v0, 0, &v0, 1), "C01: NULL / empty key is refused");
